@@ -95,6 +95,39 @@ def run(tier):
         if p not in reach_cache:
             reach_cache[p] = M.reachable_fns(fx, [p])
         return target in reach_cache[p]
+    import c03
+    _, er, _, _ = c03.erasable(fx)
+    EXPR = "parser::Parser::<'a>::parse_assignment_expression"
+    ck.anchor(EXPR in fx.fns, "Parser::parse_assignment_expression (the general value-expression parser)")
+    WRAP = ("std::", "core::", "alloc::", "error::JsError")
+
+    def type_side(p):
+        g = fx.fns.get(p)
+        if g is None:
+            return False
+        adts = {a for a in M.adts_in_type(fx, g.locals[0]) if not a.startswith(WRAP)}
+        return bool(adts) and adts <= er
+    callees, _ = fx.callgraph()
+    vr_cache = {}
+
+    def value_reach(p):
+        """functions reachable from p without entering a function that returns type syntax"""
+        if p not in vr_cache:
+            seen = set()
+            work = [p]
+            while work:
+                x = work.pop()
+                if x in seen:
+                    continue
+                seen.add(x)
+                if type_side(x) and x != p:
+                    continue
+                work.extend(callees.get(x, ()))
+            vr_cache[p] = seen
+        return vr_cache[p]
+
+    def value_reaches_expression(p):
+        return not type_side(p) and EXPR in value_reach(p)
     nrest = 0
     for f in fx.fns.values():
         rs = [bi for bi, t in f.calls() if re.search(r"Lexer::<'a>::restore$", t[1].get("d", ""))]
@@ -125,11 +158,22 @@ def run(tier):
         p1 = sorted(p for p in P1 if reaches(p, f.parent))
         p2 = sorted(p for p in P2 if reaches(p, f.parent))
         bad = bool(p1) and bool(p2)
-        ck.instance("R3.speculation", f.path, F.short_span(f.span), ok=not bad)
+        # the rolled-back region must not contain a whole value expression: whoever parses the text again after
+        # the restore (this function or a caller further up) descends into the same nested expressions, so a
+        # speculation that itself nests through the expression grammar doubles the work per level.  Type syntax
+        # is the intended subject of these speculations: paths through a function that returns type AST stop.
+        vp1 = sorted(p for p in P1 if value_reaches_expression(p))
+        bad2 = bool(vp1) and f.parent in value_reach(vp1[0])
+        ck.instance("R3.speculation", f.path, F.short_span(f.span), ok=not (bad or bad2))
         if bad:
             ck.finding("R3.speculation", "R3.speculation/" + f.parent, F.short_span(f.span),
                        "`%s` speculatively runs %s, restores the lexer, then runs %s; both can re-enter `%s`, so each nesting level doubles the work (2^n)"
                        % (f.parent, ", ".join(p.split("::")[-1] for p in p1[:3]), ", ".join(p.split("::")[-1] for p in p2[:3]), f.parent.split("::")[-1]))
+        elif bad2:
+            ck.finding("R3.speculation", "R3.speculation/" + f.parent, F.short_span(f.span),
+                       "`%s` rolls the lexer back over %s, which parses whole value expressions (it reaches %s and, through it, `%s` again without passing a type parser): "
+                       "an error deep inside nested occurrences makes every level parse its contents twice (2^n)"
+                       % (f.parent, ", ".join(p.split("::")[-1] for p in vp1[:3]), EXPR.split("::")[-1], f.parent.split("::")[-1]))
     ck.anchor(nrest >= 6, "functions restoring a lexer checkpoint (%d)" % nrest)
 
     # ---------------- R4
